@@ -38,7 +38,7 @@ def run(ctx):
         vlib.violation(ctx, "catalogue-" + c["pkg"], dict(semlib.replay_of(cmd, c), kind="a construct of the catalogue is translated to GooseLang that does not compute what Go computes"), True)
         found = True
     # generated packages
-    plan = [("default", 20), ("minigol", 12), ("minigo", 8), ("minigoc", 12)] if quick else [("default", 500), ("core", 300), ("minigo", 300), ("minigol", 400), ("minigoc", 400), ("noshadow", 200)]
+    plan = [("default", 20), ("minigol", 12), ("minigo", 8), ("minigoc", 12), ("minigos", 12)] if quick else [("default", 500), ("core", 300), ("minigo", 300), ("minigol", 400), ("minigoc", 400), ("minigos", 400), ("noshadow", 200)]
     evals = calls = 0
     samples = []
     for i, (profile, n) in enumerate(plan):
@@ -60,7 +60,10 @@ def run(ctx):
                 "shadowing, op-assign, ++/--, if/else, early returns, counted loops with break/continue, nested blocks, slices (make/index/append/range), "
                 "maps (insert/lookup/comma-ok/delete/range/len), structs by value and pointer with field updates, methods, constants, multiple results, calls) "
                 "with 4 argument vectors per function (boundary values and random); every call is run natively by the Go toolchain and by the reference "
-                "interpreter on goose's output; counted under distinct_nontrivial: calls compared",
+                "interpreter on goose's output; counted under distinct_nontrivial: calls compared. Profiles minigo / minigol / minigoc / minigos additionally compare, "
+                "inside Coq's kernel, the translator model's term with the term parsed from goose's output (function by function; for minigoc and minigos - packages of "
+                "functions that call each other and themselves, without and with var-declared locals, printed in shuffled source order, every fifth with a function goose "
+                "must refuse - the whole list of emitted values in the order of the emitted file) and the model of Go with the native result of every call",
         "samples": samples,
     })
     ctx.assumptions += ["the reference semantics Lang/GlSem.v stands for Perennial's GooseLang (not installable here); it is validated each run by the upstream semantics suite",
